@@ -48,6 +48,20 @@ Definition draws_inside_ok (c : cls) : bool := is_nil (c_draws_outside c).
 (* open known findings: NPSNoise draws its noise field inside apply; PadIfNeeded(position="random") draws in update_params *)
 Definition c13_known : list string := ["NPSNoise"; "PadIfNeeded"].
 
+(* the replay record (get_dict_with_id of the composition classes) and the annotation parameters stored in it:
+   every key holds the attribute of the same name (or a literal / a computed sub-record), the record has only
+   the documented keys (in particular no probability: a replayed operator always runs), and BboxParams /
+   KeypointParams -- rebuilt by ReplayCompose.replay from their _to_dict -- persist each argument under its name *)
+Definition record_keys : list string :=
+  ["__class_fullname__"; "id"; "params"; "transforms"; "bbox_params"; "keypoint_params"; "additional_targets"; "is_check_shapes"].
+Definition record_row_ok (row : string * list (string * string)) : bool :=
+  let '(name, pairs) := row in
+  forallb (fun ka => String.eqb (snd ka) "<expr>" || String.eqb (snd ka) "<const>" || String.eqb (fst ka) (snd ka)) pairs &&
+  forallb (fun ka => mem (fst ka) record_keys) pairs &&
+  forallb (fun k => mem k (map fst pairs)) ["__class_fullname__"; "id"; "params"; "transforms"].
+Definition is_params_row (row : string * list (string * string) * list string) : bool :=
+  mem (fst (fst row)) ["Params"; "BboxParams"; "KeypointParams"].
+
 (* ---- C11: no in-place write to a caller-owned value ---- *)
 Definition no_mutation : bool := is_nil mutation_table.
 
